@@ -82,6 +82,10 @@ f('C08', 'make-periodic-weights-continuity>=2', 'make_periodic(split(c, start), 
 f('C08', 'periodic-insert-small-basis', 'split / lower_periodic / round trip on periodic bases with n < p+k give wrong geometry or NaN (periodic insert_knot defect, see C04)', False, {'call': 'Curve(BSplineBasis(2,[-1,0,1,2],0),[[1,-1.5,1.25,1.25]],rational=True,raw=True).lower_periodic(-1)'})
 f('C08', 'constructor-accepts-non-periodic-knot-vector', 'the constructor checks only p+k-1 spacings and not the seam multiplicity: accepted periodic vectors that are not periodic/continuous at the seam', False, {'call': 'Curve(BSplineBasis(3,[-1,0,1,2,3,4,5],0),[[0,0],[1,0],[0,1]])'})
 
+f('C16', 'torsion-scalar-branch-uses-acceleration', 'Curve.torsion with scalar input uses dot(w, a) (always 0) instead of dot(w, da)', True, {'call': 'Curve(BSplineBasis(4),[[0,0,0],[1/3,0,0],[2/3,1/3,0],[1,1,1]]).torsion(0.5)'})
+f('C16', 'rational-curve-one-element-list-derivative-squeezed', 'rational Curve.derivative([t], d=2|3) squeezes a one-element list to shape (dim,): torsion/binormal/normal on [t] give garbage or IndexError', True, {'call': 'rational cubic .torsion([0.3])'})
+f('C16', 'integrate-periodic-collapse-single-fold', 'BSplineBasis.integrate folds periodic images only once: wrong integrals (and centre) when num_functions < periodic+1', True, {'call': 'BSplineBasis(3,[-2,-1,0,1,2,3],1).integrate(0,1)'})
+
 FIXED = []
 if __name__ == '__main__':
     p = os.path.join(os.path.dirname(os.path.dirname(os.path.abspath(__file__))), 'known_findings.json')
